@@ -102,10 +102,9 @@ pub mod dom {
             unimplemented!()
         }
 
-        // DOM Level 1: null for a Document node, the owning document for every node created through the parser
+        // DOM Level 1: null for a Document node; this library also answers None for namespace nodes -- nothing is promised
         #[verifier::external_body]
         pub fn owner_document(&self) -> (r: Option<XmlDocument>)
-            ensures !(self is Document) ==> r is Some,
         {
             unimplemented!()
         }
@@ -798,7 +797,9 @@ def build():
         rules=[R_SKIP1, R_DEDUP, R_SORT],
         inject=[(r'shim_dedup_by_order\(&mut nodes\);', 'proof { if sorted_by_order(nodes@) { lemma_dedup_sorted(nodes@); } }', 'before all')],
         loops={0: dict(invariant=[('C19:ctx', 'same_ctx(*context, *old(context))')])})
-    fns['eval_path_expr'] = Fn(FE, None, 'eval_path_expr', props=P, safety_props=['C06'], attrs=[NODEC],
+    fns['eval_path_expr'] = Fn(FE, None, 'eval_path_expr', props=P,
+                               rules=[Rule('R15', r'\.map\(\|d\| vec!\[d\.as_node\(\)\]\)', '.map(|d: dom::XmlDocument| -> (r: Vec<dom::XmlNode>) ensures r@.len() == 1 { vec![d.as_node()] })',
+                                           'closure gets an explicit contract (specification only): the vector it builds has one element')], safety_props=['C06'], attrs=[NODEC],
                                ensures=[C19, ('C07:path_value_is_sorted', 'r is Ok ==> value_is_sorted(r->Ok_0)')])
     fns['eval_filter_expr'] = Fn(
         FE, None, 'eval_filter_expr', props=P, safety_props=['C06'], attrs=[NODEC], ensures=[C19, C07SET], rules=[R_ENUM],
@@ -850,4 +851,14 @@ def build():
 
 
 TEMPLATE, FNS = build()
-UNIT = dict(name='eval_ctx', template=TEMPLATE, fns=FNS, props=['C19'])
+
+
+def _auto(name):
+    """Default contract for a private helper of eval/mod.rs that an extracted body calls and this unit does not list:
+    no panic (C06); if it is handed the context, the context comes back unchanged (C19)."""
+    src_has_ctx = True
+    return Fn(FE, None, name, props=['C19'], safety_props=['C06'], attrs=[NODEC], label=name + ' (auto-extracted helper)',
+              rules=[R_TOBOOL, R_UNIMPL, R_SORT, R_REVERSE, R_NODETYPE], ensures_if_param=[('context', C19)])
+
+
+UNIT = dict(name='eval_ctx', template=TEMPLATE, fns=FNS, props=['C19'], auto_extract=dict(file=FE, make=_auto))
